@@ -53,7 +53,7 @@ def make(cfg):
         out = []
         for i, s in enumerate(cfg["params"]):
             present = True
-            if cfg.get("presence") == "symbolic":
+            if cfg.get("presence") == "symbolic" and (cfg.get("presence_params") is None or i in cfg["presence_params"]):
                 present = bool(symx.symbool(f"present_p{i}_s{k}"))
             out.append(H.arr_var(f"g{k}p{i}", tuple(s)) if present else None)
         return out
@@ -183,6 +183,10 @@ def jobs_for(tier):
     add(world=4, group=2, graft=None, fixed=dict(mom=0, wd=0), **P5)
     # gradient presence: includes histories where every block owned by some rank has no gradient
     add(world=2, group=2, presence="symbolic", graft=None, fixed=dict(mom=0, wd=0, b1=0), params=[(2, 2), (2,)], mpd=2, merge=False)
+    # presence changes confined to the blocks of one rank while every rank keeps a gradient (no starvation): stale masked lists on the other rank
+    P4 = dict(params=[(2, 2), (2, 2), (2,), (2,)], mpd=2, merge=False)
+    add(world=2, group=2, presence="symbolic", presence_params=[2, 3], graft=None, fixed=dict(mom=0, wd=0, b1=0), T=3, **P4)
+    add(world=2, group=2, presence="symbolic", presence_params=[2, 3], communicate_params=True, graft=None, fixed=dict(mom=0, wd=0, b1=0), T=2, **P4)
     if tier == "thorough":
         add(world=4, group=4, communicate_params=True, **P5)
         add(world=3, group=1, **P5)
